@@ -1,8 +1,5 @@
 use super::convert::{date_to_days, days_to_date, year_doy_to_days, year_month_to_doy};
-use crate::{
-    errors::{out_of_range::create_custom_oor, AstrolabeError},
-    util::leap::is_leap_year,
-};
+use crate::errors::{out_of_range::create_custom_oor, AstrolabeError};
 
 pub(crate) fn set_year(days: i32, year: i32) -> Result<i32, AstrolabeError> {
     let (_, month, day) = days_to_date(days);
@@ -29,46 +26,37 @@ pub(crate) fn set_day_of_year(days: i32, day_of_year: u32) -> Result<i32, Astrol
 }
 
 pub(crate) fn add_years(days: i32, years: u32) -> Result<i32, AstrolabeError> {
-    let (year, month, mut day) = days_to_date(days);
-    let mut target_year: i32 = year + years as i32;
-    // Skip year 0
-    if year < 0 && target_year >= 0 {
-        target_year += 1;
-    }
-
-    if is_leap_year(year) && !is_leap_year(target_year) && month == 2 && day == 29 {
-        day = 28;
-    }
-
-    date_to_days(target_year, month, day)
+    shift_months(days, years as i64 * 12)
 }
 
 pub(crate) fn add_months(days: i32, months: u32) -> Result<i32, AstrolabeError> {
-    let (year, month, day) = days_to_date(days);
-    let mut total_months = year * 12 + month as i32 + months as i32 - 1;
-    // Skip year 0
-    if total_months <= 11 {
-        total_months += 12;
-    }
+    shift_months(days, months as i64)
+}
 
-    let target_year = total_months / 12;
-    let target_month = if (month + months) % 12 == 0 {
-        12
+/// Moves a date by the given number of calendar months (negative to go back), keeping the day of
+/// month and clamping it to the length of the target month.
+fn shift_months(days: i32, months: i64) -> Result<i32, AstrolabeError> {
+    let (year, month, day) = days_to_date(days);
+    // Astronomical year numbering, year 0 is the year before year 1
+    let year = if year < 1 { year + 1 } else { year } as i64;
+    let total_months = year * 12 + month as i64 - 1 + months;
+
+    let target_year = total_months.div_euclid(12);
+    let target_month = total_months.rem_euclid(12) as u32 + 1;
+    // Back to the numbering without year 0
+    let target_year = if target_year < 1 {
+        target_year - 1
     } else {
-        (month + months) % 12
+        target_year
     };
-    let target_day = match day {
-        day if day < 29 => day,
-        _ => {
-            let (_, mdays) = year_month_to_doy(target_year, target_month).unwrap();
-            if day > mdays {
-                mdays
-            } else {
-                day
-            }
-        }
-    };
-    date_to_days(target_year, target_month, target_day)
+    let target_year = i32::try_from(target_year).map_err(|_| {
+        create_custom_oor(format!(
+            "Instance would result into an overflow if {} months were added.",
+            months,
+        ))
+    })?;
+    let (_, mdays) = year_month_to_doy(target_year, target_month)?;
+    date_to_days(target_year, target_month, day.min(mdays))
 }
 
 pub(crate) fn add_days(old_days: i32, days: u32) -> Result<i32, AstrolabeError> {
@@ -81,50 +69,11 @@ pub(crate) fn add_days(old_days: i32, days: u32) -> Result<i32, AstrolabeError> 
 }
 
 pub(crate) fn sub_years(days: i32, years: u32) -> Result<i32, AstrolabeError> {
-    let (year, month, mut day) = days_to_date(days);
-    let mut target_year: i32 = year - years as i32;
-    // Skip year 0
-    if year > 0 && target_year <= 0 {
-        target_year -= 1;
-    }
-
-    if is_leap_year(year) && !is_leap_year(target_year) && month == 2 && day == 29 {
-        day = 28;
-    }
-
-    date_to_days(target_year, month, day)
+    shift_months(days, -(years as i64 * 12))
 }
 
 pub(crate) fn sub_months(days: i32, months: u32) -> Result<i32, AstrolabeError> {
-    let (year, month, day) = days_to_date(days);
-    let mut total_months = year * 12 + month as i32 - months as i32 - 1;
-    // Skip year 0
-    if total_months <= 11 {
-        if year > 0 {
-            total_months -= 24;
-        } else {
-            total_months -= 12;
-        }
-    }
-
-    let target_year = total_months / 12;
-    let target_month = if (month - months) % 12 == 0 {
-        12
-    } else {
-        (month - months) % 12
-    };
-    let target_day = match day {
-        day if day < 29 => day,
-        _ => {
-            let (_, mdays) = year_month_to_doy(target_year, target_month).unwrap();
-            if day > mdays {
-                mdays
-            } else {
-                day
-            }
-        }
-    };
-    date_to_days(target_year, target_month, target_day)
+    shift_months(days, -(months as i64))
 }
 
 pub(crate) fn sub_days(old_days: i32, days: u32) -> Result<i32, AstrolabeError> {
